@@ -238,7 +238,18 @@ func monitor(lines []string) []fail {
 		f0 := strings.Fields(c.ops[0])[0]
 		switch f0 {
 		case "next", "close", "inextit":
-			return monitorNexts(c, outs[c.nbuild:], st)
+			fails := monitorNexts(c, outs[c.nbuild:], st)
+			if c.mode == "st" && len(toks) > 1 {
+				// C07 conservation clauses of WithPeek / Runs (conserve.go): judged whatever the other
+				// clauses found, also in cases with failed calls
+				switch k, _ := splitTok(toks[len(toks)-1]); k {
+				case "peek":
+					fails = append(fails, peekConservation(c, outs[c.nbuild:], st, "next", "", "close")...)
+				case "runs":
+					fails = append(fails, runsConservation(c, outs[c.nbuild:], st)...)
+				}
+			}
+			return fails
 		case "iequal":
 			return monitorEqual(c, outs[c.nbuild:])
 		default:
@@ -247,12 +258,20 @@ func monitor(lines []string) []fail {
 			}
 		}
 	case "stpk", "itpk":
-		return monitorPeek(c, outs[c.nbuild:], st)
+		fails := monitorPeek(c, outs[c.nbuild:], st)
+		if c.mode == "stpk" {
+			fails = append(fails, peekConservation(c, outs[c.nbuild:], st, "pnext", "ppeek", "pclose")...)
+		}
+		return fails
 	case "strp", "itrp":
 		if c.rel != "eq" && c.rel != "par" && c.rel != "le" {
 			return nil
 		}
-		return monitorPorts(c, outs[c.nbuild:], st)
+		fails := monitorPorts(c, outs[c.nbuild:], st)
+		if c.mode == "strp" {
+			fails = append(fails, runsPortsConservation(c, outs[c.nbuild:], st)...)
+		}
+		return fails
 	}
 	return nil
 }
